@@ -196,6 +196,15 @@ def run(ctx):
 
         judge('specification', text, feats, 's:' + '+'.join(A.prop_shape(p) for p in ps), True, shrinker)
 
+    # human-written inputs: the strings of the repository's tests and documentation (shard 0)
+    if ctx.shard == 0:
+        from .. import corpus
+
+        for level in ('property', 'specification', 'condition', 'expression'):
+            for origin, text in corpus.accepted(level):
+                if judge(level, text, {'api:' + level, 'shape:corpus'}, f'corpus:{level}:{h64(text)}', True, None):
+                    ctx.count('corpus_roundtrips')
+
     # references: distinct reference chains must print distinctly (shard 0, exhaustive small scope)
     if ctx.shard == 0:
         roots = [A.THIS, A.var('A'), A.var('B')]
